@@ -41,7 +41,7 @@ def booking_units(prog, core_only=True):
     model = prog.classes.get('Model')
     if model is None or 'Model' not in prog.classes:
         raise AnalysisError('Model class not found')
-    for ci in prog.subclasses('Sector'):
+    for ci in prog.subclasses('Sector', with_dups=not core_only):
         if core_only and not prog.is_core(ci.module.rel):
             continue
         if not core_only and prog.is_core(ci.module.rel):
